@@ -64,6 +64,7 @@ type UsableCase struct {
 	Obs      struct {
 		Schema bool    `json:"schema"`
 		File   SideObs `json:"file"`
+		Lookup SideObs `json:"lookup"` // the same file found by the loader's lookup instead of being named
 		Env    SideObs `json:"env"`
 	} `json:"obs"`
 }
@@ -506,6 +507,16 @@ func Universe(dir string) ([]Item, error) {
 		}
 	}
 
+	// --- a type nobody knows, per kind: refused for a file (by the schema) wherever the file is found,
+	// and without effect from the environment
+	for _, kind := range keysOf(map[string]any{"authenticators": 1, "authorizers": 1, "contextualizers": 1, "finalizers": 1, "error_handlers": 1}) {
+		items = append(items, Item{
+			Name: strings.TrimSuffix(kind, "s") + ":no_such_type", Category: "mechanism", Source: "neither",
+			Config: m{"mechanisms": m{kind: []any{m{"id": "item", "type": "no_such_type"}}}}, FileExtra: mechanismFileExtra,
+			Effective: mechanismEffective(kind, "item"),
+		})
+	}
+
 	// --- optional settings of the mechanisms: what the loader treats as optional (defaults, partial
 	// objects) must be optional for the schema too, and the other way round
 	for _, o := range optionVariants(keyPath) {
@@ -907,6 +918,7 @@ func RunItem(l *Loader, it Item, form string) (*UsableCase, error) {
 	fres := l.Load(uc.Prefix, string(y), nil)
 	uc.Obs.Schema = fres.SchemaOK
 	uc.Obs.File = side(fres, it.Effective)
+	uc.Obs.Lookup = side(l.LoadLookup(uc.Prefix, string(y), nil), it.Effective)
 
 	var env Env
 
